@@ -1,5 +1,6 @@
 """C16: real S3TapeCassette over the fake bucket with a fake clock."""
 import datetime
+import random
 
 import fake_s3
 from driver_common import main
@@ -13,8 +14,8 @@ def at(us):
     return BASE + datetime.timedelta(microseconds=us)
 
 
-def populated(times, prefix):
-    key = (tuple(times), prefix)
+def populated(times, tags, prefix):
+    key = (tuple(times), tuple(tags), prefix)
     if key in _cache:
         return _cache[key]
     s3c = fake_s3.install(random_ids=len(_cache) + 17)
@@ -26,12 +27,13 @@ def populated(times, prefix):
         fake_s3.CLOCK.set(at(t))
         rec = cas.create_new_recording('Op')
         rec.set_data('k', i)
-        rec.add_metadata({'i': i})
+        rec.add_metadata({'i': i, 'g': tags[i]})
         cas.save_recording(rec)
         ids[rec.id] = i
-        if i % 7 == 0:   # decoy of a prefix category at the same instant
+        if i % 7 == 0:   # decoy of a prefix category at the same instant (same metadata: a filter does not hide it)
             d = cas.create_new_recording('OpX')
             d.set_data('k', i)
+            d.add_metadata({'i': i, 'g': tags[i]})
             cas.save_recording(d)
     if len(_cache) > 8:
         _cache.clear()
@@ -41,10 +43,15 @@ def populated(times, prefix):
 
 
 def run_c16(case):
-    cas, ids = populated(case['times'], case.get('prefix', ''))
+    times = case['times']
+    cas, ids = populated(times, case.get('tags') or [0] * len(times), case.get('prefix', ''))
     fake_s3.CLOCK.set(at(case['now']))
     end = None if case['end'] is None else at(case['end'])
-    got = list(cas.iter_recording_ids('Op', start_date=at(case['start']), end_date=end))
+    flt = None if case.get('filter') is None else {'g': case['filter']}
+    if case.get('random'):
+        random.seed(case['start'] % 1009)     # the listing is compared as a set; the seed only makes the run repeatable
+    got = list(cas.iter_recording_ids('Op', start_date=at(case['start']), end_date=end, metadata=flt,
+                                      random_results=bool(case.get('random'))))
     idx = [ids.get(g, -1) for g in got]
     return {"listed": sorted(idx), "n": len(got), "unknown": [g for g in got if g not in ids][:3]}
 
